@@ -350,3 +350,51 @@ def run(ck, prog):
     _run_pre_negcast(ck, prog)
     from sa import negcast
     negcast.run_rule(ck, prog, set(DIMENSION_FILES))
+
+
+# ------------------------------------------------------------------ Gaussian NB: a class with a constant feature has variance zero
+_run_pre_vardiv = run
+
+
+def gaussian_variance_guarded(ck, prog):
+    """'The label predicted for any row whose values occurred in training is a class maximising ...': the Gaussian
+    log-density divides by the per-class variance and takes its logarithm. The variance is exactly 0 whenever a class has a
+    single row or a feature that is constant within the class (always the case for a 2-row, 2-class training set), the score
+    is NaN and the arg-max unwraps partial_cmp of NaN: predict panics. Guarded-division rule on calculate_log_probability
+    (in the function or in log_likelihood before the call)."""
+    from sa import divguard
+    from sa.e1 import BodyCtx
+    rule, inst = "E2-guarded-division", "GaussianNB: the class variance is tested against zero before the density divides by it"
+    cal = prog.find(r"naive_bayes::gaussian::GaussianNBDistribution::<T>::calculate_log_probability$")
+    if len(cal) != 1:
+        ck.note(f"{inst}: calculate_log_probability not found ({len(cal)}): density computed differently, no instance")
+        return
+    b = cal[0]
+    is_var = lambda t: t[0] == "arg" and t[1] == 4
+    sites = divguard.check(b, is_var)
+    if not sites:
+        ck.note(f"{inst}: no division by the variance argument: no instance")
+        return
+    # a guard in the caller: log_likelihood tests the variance it passes
+    caller_guard = False
+    for cb in prog.find(r"naive_bayes::gaussian::GaussianNBDistribution<T> as naive_bayes::NBDistribution<T, M>>::log_likelihood$"):
+        cx = BodyCtx.of(cb)
+        from sa.match import Zero
+        z = Zero()
+        for c in cx.cmps:
+            for (L, R) in ((c.lhs, c.rhs), (c.rhs, c.lhs)):
+                if z(R) and any(s[0] == "field" and s[2] in ("sigma", "var", "variance") for s in subterms(L)):
+                    caller_guard = True
+    for k, (where, den, guarded) in enumerate(sites):
+        if guarded or caller_guard:
+            ck.ok(rule, inst, b.path, where, f"division by `{render(den)[:60]}` behind a non-zero test")
+        else:
+            ck.violation(rule, inst, b.path, where, ordinal=k,
+                         expected="a zero test (or a data-relative floor) of the variance before it is divided by / its logarithm taken",
+                         found=f"divides by `{render(den)[:60]}` unconditionally: a class with a single row or a within-class constant feature has "
+                               f"variance 0, the score is NaN and BaseNaiveBayes::predict panics in partial_cmp(..).unwrap()")
+
+
+def run(ck, prog):
+    _run_pre_vardiv(ck, prog)
+    gaussian_variance_guarded(ck, prog)
